@@ -14,7 +14,8 @@ LEVEL = 'exploration'
 RULE = ('Constructive Hypothesis grammars per class (Filter, Util, Recorder, VideoIn, VideoOut, ImageIn, ImageOut, MQTTOut, REST, Webvis): '
         '1-4 sources/outputs, topics, mappings, options of every kind (!k, !no-k, !k=json), whitespace variation around delimiters, '
         "passwords containing '!'. Non-trivial = the case has >= 1 option or topic mapping and exercises >= 1 of: trailing ';', empty side "
-        "of '>', '!no-x', JSON-valued option, '!' inside a password, whitespace around delimiters. Distinct = distinct case value.")
+        "of '>', '!no-x', JSON-valued option, '!' inside a password, whitespace around delimiters. Distinct = distinct case value."
+        ' VideoOut outputs also carry encoder parameters written as options (merged into params); generated configurations are un-aliased before use.')
 ASSUMPTIONS = ["a value may not contain the delimiter of an enclosing level (',' in comma-string form, ';', '!') and a password segment after '!' "
                "must not itself look like an option - the syntax is inherently ambiguous there",
                'only documented configuration forms are generated']
